@@ -412,3 +412,21 @@ package raft
 //@   loop 1 (range cfg.Servers)
 //@     invariant forall j int :: 0 <= j && j < idx1 ==> !(cfg.Servers[j].ID == srvID && cfg.Servers[j].Suffrage == hraft.Voter)
 //@   modifies nothing
+
+// ---- C01/C14 "what a restarted peer holds": a peer shutting down always attempts a last snapshot of what it has
+// applied - also when waiting for outstanding updates timed out (hashicorp/raft does not persist the commit index: a peer
+// restarting without quorum holds exactly what its last snapshot contains) ----
+//@ ghost var snapTriedN int
+//@ func (rw *raftWrapper) Snapshot
+//@   opts trusted
+//@   counts snapTriedN when true
+//@   modifies nothing
+//@ func (rw *raftWrapper) WaitForUpdates
+//@   opts trusted
+//@   modifies nothing
+//@ func (rw *raftWrapper) snapshotOnShutdown
+//@   property C01 C14
+//@   ensures [a-last-snapshot-is-always-attempted] maxShutdownSnapshotRetries > 0 ==> snapTriedN > old(snapTriedN)
+//@   loop 1 (for i < maxShutdownSnapshotRetries)
+//@     invariant i >= 0 && (i > 0 ==> snapTriedN > old(snapTriedN)) && snapTriedN >= old(snapTriedN)
+//@   modifies snapTriedN
